@@ -221,10 +221,10 @@ theorem addZeroWidth_eq (t : GridTerm) (bs : List UInt8) (line c0 : Int) (g : Li
     (t.addZeroWidth bs).cells line c0 = { t.cells line c0 with glyph := .chars (g ++ bs) } ∧
     (∀ l c, ¬ (l = line ∧ c = c0) → (t.addZeroWidth bs).cells l c = t.cells l c) ∧
     (t.addZeroWidth bs).line = t.line ∧ (t.addZeroWidth bs).col = t.col ∧ (t.addZeroWidth bs).pen = t.pen ∧
-    (t.addZeroWidth bs).last = t.last := by
+    (t.addZeroWidth bs).last = t.last ∧ (t.addZeroWidth bs).cols = t.cols := by
   unfold GridTerm.addZeroWidth
   rw [hl]
-  refine ⟨?_, ?_, rfl, rfl, rfl, by simp [hl]⟩
+  refine ⟨?_, ?_, rfl, rfl, rfl, by simp [hl], rfl⟩
   · simp only [and_self, if_true]
     rw [hg]
   · intro l c h
@@ -236,8 +236,8 @@ theorem putChs_cons (t : GridTerm) (c : Ch) (cs : List Ch) : t.putChs (c :: cs) 
 /-- Printing characters after a grapheme that is already on the terminal: the cells from the start of that grapheme to
     the cursor show the graphemes of the characters, column by column. -/
 theorem putChs_gs (cs : List Ch) (hw : ∀ c ∈ cs, 0 ≤ c.width) :
-    ∀ (t : GridTerm) (line : Int) (g : Grapheme), CurInv t line g →
-      (t.putChs cs).line = line ∧
+    ∀ (t : GridTerm) (line : Int) (g : Grapheme), CurInv t line g → t.col + chCols cs ≤ t.cols →
+      (t.putChs cs).line = line ∧ (t.putChs cs).cols = t.cols ∧
       (t.putChs cs).col = t.col - g.width + gCols (graphemesAux cs (some g)) ∧
       (t.putChs cs).pen = t.pen ∧
       (∀ l k, ¬ (l = line ∧ t.col - g.width ≤ k ∧ k < (t.putChs cs).col) → (t.putChs cs).cells l k = t.cells l k) ∧
@@ -247,11 +247,11 @@ theorem putChs_gs (cs : List Ch) (hw : ∀ c ∈ cs, 0 ≤ c.width) :
           ((t.putChs cs).cells line k).writes = (t.cells line k).writes + (if k < t.col then 0 else 1)) := by
   induction cs with
   | nil =>
-    intro t line g hi
+    intro t line g hi _
     have hp : t.putChs [] = t := rfl
     have hgs : graphemesAux [] (some g) = [g] := rfl
     rw [hp, hgs]
-    refine ⟨hi.line_eq, by simp only [gCols]; omega, rfl, fun _ _ _ => rfl, ?_⟩
+    refine ⟨hi.line_eq, rfl, by simp only [gCols]; omega, rfl, fun _ _ _ => rfl, ?_⟩
     intro k h1 h2
     refine ⟨_, colGlyph_cons_first g [] _ k h1 (by omega), ?_, hi.pen k h1 h2, by rw [if_pos h2]; omega⟩
     simp only
@@ -259,14 +259,16 @@ theorem putChs_gs (cs : List Ch) (hw : ∀ c ∈ cs, 0 ≤ c.width) :
     · rw [if_pos hk, hk]; exact hi.head
     · rw [if_neg hk]; exact hi.tail k (by omega) h2
   | cons c cs ih =>
-    intro t line g hi
+    intro t line g hi hfit
     have hc0 : 0 ≤ c.width := hw c (by simp)
     have hw' : ∀ c' ∈ cs, 0 ≤ c'.width := fun c' h => hw c' (by simp [h])
     have hwp := hi.wpos
+    have hcsn := chCols_nonneg cs hw'
+    simp only [chCols] at hfit
     rw [putChs_cons]
     by_cases hc : c.width = 0
     · -- a zero-width character joins the grapheme
-      obtain ⟨e0, e1, e2, e3, e4, e5⟩ := addZeroWidth_eq t c.bytes line (t.col - g.width) g.bytes hi.last hi.head
+      obtain ⟨e0, e1, e2, e3, e4, e5, e6⟩ := addZeroWidth_eq t c.bytes line (t.col - g.width) g.bytes hi.last hi.head
       have hput : t.putCh c = t.addZeroWidth c.bytes := by simp [GridTerm.putCh, hc]
       rw [hput, graphemesAux_cons_zero _ _ _ hc]
       have hi' : CurInv (t.addZeroWidth c.bytes) line { g with bytes := g.bytes ++ c.bytes } := by
@@ -284,16 +286,15 @@ theorem putChs_gs (cs : List Ch) (hw : ∀ c ∈ cs, 0 ≤ c.width) :
           by_cases hk : k = t.col - g.width
           · rw [hk, e0]; exact hi.pen _ (by omega) (by omega)
           · rw [e1 line k (by omega)]; exact hi.pen k h1 h2
-      obtain ⟨r1, r2, r3, r4, r5⟩ := ih hw' (t.addZeroWidth c.bytes) line _ hi'
+      obtain ⟨r1, r0, r2, r3, r4, r5⟩ := ih hw' (t.addZeroWidth c.bytes) line _ hi' (by rw [e3, e6]; omega)
       simp only at r2 r4 r5
       rw [e3] at r2 r4 r5
       rw [e4] at r3 r5
       have hge : t.col - g.width + 1 ≤ ((t.addZeroWidth c.bytes).putChs cs).col := by
         rw [r2, gCols_graphemesAux]
-        have := chCols_nonneg cs hw'
         simp only [Option.toList_some, gCols]
         omega
-      refine ⟨r1, r2, r3, ?_, ?_⟩
+      refine ⟨r1, by rw [r0, e6], r2, r3, ?_, ?_⟩
       · intro l k hn
         rw [r4 l k hn, e1 l k (by omega)]
       · intro k h1 h2
@@ -304,18 +305,21 @@ theorem putChs_gs (cs : List Ch) (hw : ∀ c ∈ cs, 0 ≤ c.width) :
         · rw [hk, e0]
         · rw [e1 line k (by omega)]
     · -- a character of width > 0 starts the next grapheme at the cursor
-      have hput : t.putCh c = t.putGlyph c.bytes c.width := by simp [GridTerm.putCh, hc]
+      have hput : t.putCh c = t.putGlyphRaw c.bytes c.width := by
+        simp only [GridTerm.putCh, hc, if_false]
+        exact GridTerm.putGlyph_fit _ _ _ (by omega)
       rw [hput, graphemesAux_cons_base _ _ _ hc]
-      have p1 : (t.putGlyph c.bytes c.width).line = t.line := rfl
-      have p2 : (t.putGlyph c.bytes c.width).col = t.col + c.width := rfl
-      have p3 : (t.putGlyph c.bytes c.width).pen = t.pen := rfl
-      have p4 : (t.putGlyph c.bytes c.width).last = some (t.line, t.col) := rfl
-      have p5 : ∀ l k, (t.putGlyph c.bytes c.width).cells l k =
+      have p1 : (t.putGlyphRaw c.bytes c.width).line = t.line := rfl
+      have p2 : (t.putGlyphRaw c.bytes c.width).col = t.col + c.width := rfl
+      have p3 : (t.putGlyphRaw c.bytes c.width).pen = t.pen := rfl
+      have p4 : (t.putGlyphRaw c.bytes c.width).last = some (t.line, t.col) := rfl
+      have p6 : (t.putGlyphRaw c.bytes c.width).cols = t.cols := rfl
+      have p5 : ∀ l k, (t.putGlyphRaw c.bytes c.width).cells l k =
           if l = t.line ∧ t.col ≤ k ∧ k < t.col + c.width then
             { glyph := if k = t.col then .chars c.bytes else .wcont, pen := t.pen, writes := (t.cells l k).writes + 1 }
           else t.cells l k := fun _ _ => rfl
       have hl := hi.line_eq
-      have hi' : CurInv (t.putGlyph c.bytes c.width) line ⟨c.bytes, c.width⟩ := by
+      have hi' : CurInv (t.putGlyphRaw c.bytes c.width) line ⟨c.bytes, c.width⟩ := by
         refine ⟨by rw [p1]; exact hl, by rw [p4, p2, hl]; simp, by simp only; omega, ?_, ?_, ?_⟩
         · rw [p2, p5]; simp only
           rw [if_pos (by omega)]; simp
@@ -326,18 +330,17 @@ theorem putChs_gs (cs : List Ch) (hw : ∀ c ∈ cs, 0 ≤ c.width) :
         · intro k h1 h2
           rw [p2] at h1 h2; simp only at h1
           rw [p5, if_pos (by omega), p3]
-      obtain ⟨r1, r2, r3, r4, r5⟩ := ih hw' (t.putGlyph c.bytes c.width) line _ hi'
+      obtain ⟨r1, r0, r2, r3, r4, r5⟩ := ih hw' (t.putGlyphRaw c.bytes c.width) line _ hi' (by rw [p2, p6]; omega)
       simp only at r2 r4 r5
-      have hcol1 : (t.putGlyph c.bytes c.width).col - c.width = t.col := by rw [p2]; omega
+      have hcol1 : (t.putGlyphRaw c.bytes c.width).col - c.width = t.col := by rw [p2]; omega
       rw [hcol1] at r2 r4 r5
       rw [p3] at r3 r5
       have hgs2 : c.width ≤ gCols (graphemesAux cs (some ⟨c.bytes, c.width⟩)) := by
         rw [gCols_graphemesAux]
-        have := chCols_nonneg cs hw'
         simp only [Option.toList_some, gCols]
         omega
       simp only [Option.toList_some, List.singleton_append, gCols]
-      refine ⟨r1, by rw [r2]; omega, r3, ?_, ?_⟩
+      refine ⟨r1, by rw [r0, p6], by rw [r2]; omega, r3, ?_, ?_⟩
       · intro l k hn
         rw [r4 l k (fun h => hn ⟨h.1, by omega, h.2.2⟩), p5,
           if_neg (fun h => hn ⟨by rw [h.1, hl], by omega, by rw [r2]; omega⟩)]
@@ -713,10 +716,12 @@ theorem text_end_split (cell : Cell) (cs : List Ch) (hdec : decode cell.text = s
 
 /-! ## The stages of the TEXT case on the terminal -/
 
-/-- An optional `erasech(k, YES)` for `k ∈ {0, 1}` (the blank for half of a double-width character). -/
-theorem erase_opt (t : GridTerm) (k : Int) (hk : k = 0 ∨ k = 1) :
+/-- An optional `erasech(k, YES)` for `k ∈ {0, 1}` (the blank for half of a double-width character), with room for it
+    on the line. -/
+theorem erase_opt (t : GridTerm) (k : Int) (hk : k = 0 ∨ k = 1) (hfit : t.col + k ≤ t.cols) :
     (t.run (if k > 0 then [.erasech k .yes] else [])).line = t.line ∧
-    (t.run (if k > 0 then [.erasech k .yes] else [])).col = t.col + k ∧
+    (t.run (if k > 0 then [.erasech k .yes] else [])).cols = t.cols ∧
+    (t.col + k < t.cols ∨ k = 0 → (t.run (if k > 0 then [.erasech k .yes] else [])).col = t.col + k) ∧
     (t.run (if k > 0 then [.erasech k .yes] else [])).pen = t.pen ∧
     (∀ l c, ¬ (l = t.line ∧ t.col ≤ c ∧ c < t.col + k) →
       (t.run (if k > 0 then [.erasech k .yes] else [])).cells l c = t.cells l c) ∧
@@ -728,26 +733,28 @@ theorem erase_opt (t : GridTerm) (k : Int) (hk : k = 0 ∨ k = 1) :
     subst h0
     have : (if (0 : Int) > 0 then [Req.erasech 0 MaybeBool.yes] else []) = [] := by simp
     rw [this]
-    exact ⟨rfl, by simp [GridTerm.run], rfl, fun _ _ _ => rfl, fun c h1 h2 => by omega⟩
+    exact ⟨rfl, rfl, fun _ => by simp [GridTerm.run], rfl, fun _ _ _ => rfl, fun c h1 h2 => by omega⟩
   | inr h1 =>
     subst h1
     simp only [gt_iff_lt, Int.zero_lt_one, if_true, GridTerm.run, GridTerm.step]
-    refine ⟨GridTerm.erasech_line _ _ _, GridTerm.erasech_col_yes _ _ (by omega), GridTerm.erasech_pen _ _ _, ?_, ?_⟩
+    refine ⟨GridTerm.erasech_line _ _ _, GridTerm.erasech_cols _ _ _, ?_, GridTerm.erasech_pen _ _ _, ?_, ?_⟩
+    · intro h
+      exact GridTerm.erasech_col_yes _ _ (by omega) (by omega)
     · intro l c hn
-      rw [GridTerm.erasech_cells _ _ _ (by omega), if_neg hn]
+      rw [GridTerm.erasech_cells _ _ _ (by omega) hfit, if_neg hn]
     · intro c h1 h2
-      rw [GridTerm.erasech_cells _ _ _ (by omega), if_pos ⟨rfl, h1, h2⟩]
+      rw [GridTerm.erasech_cells _ _ _ (by omega) hfit, if_pos ⟨rfl, h1, h2⟩]
 
 theorem curInv_putGlyph (t : GridTerm) (b : Ch) (hb : b.width > 0) :
-    CurInv (t.putGlyph b.bytes b.width) t.line ⟨b.bytes, b.width⟩ := by
-  have p2 : (t.putGlyph b.bytes b.width).col = t.col + b.width := rfl
-  have p5 : ∀ l k, (t.putGlyph b.bytes b.width).cells l k =
+    CurInv (t.putGlyphRaw b.bytes b.width) t.line ⟨b.bytes, b.width⟩ := by
+  have p2 : (t.putGlyphRaw b.bytes b.width).col = t.col + b.width := rfl
+  have p5 : ∀ l k, (t.putGlyphRaw b.bytes b.width).cells l k =
       if l = t.line ∧ t.col ≤ k ∧ k < t.col + b.width then
         { glyph := if k = t.col then .chars b.bytes else .wcont, pen := t.pen, writes := (t.cells l k).writes + 1 }
       else t.cells l k := fun _ _ => rfl
-  have p4 : (t.putGlyph b.bytes b.width).last = some (t.line, t.col) := rfl
+  have p4 : (t.putGlyphRaw b.bytes b.width).last = some (t.line, t.col) := rfl
   refine ⟨rfl, by rw [p4, p2]; simp, by simp only; omega, ?_, ?_, ?_⟩
-  · have e : (t.putGlyph b.bytes b.width).col - (⟨b.bytes, b.width⟩ : Grapheme).width = t.col := by
+  · have e : (t.putGlyphRaw b.bytes b.width).col - (⟨b.bytes, b.width⟩ : Grapheme).width = t.col := by
       rw [p2]; simp only; omega
     rw [e, p5, if_pos ⟨rfl, by omega, by omega⟩]; simp
   · intro k h1 h2
@@ -759,9 +766,11 @@ theorem curInv_putGlyph (t : GridTerm) (b : Ch) (hb : b.width > 0) :
     rw [p5, if_pos ⟨rfl, by omega, by omega⟩]
     rfl
 
-/-- Printing characters that begin with a character of width > 0, at the cursor. -/
-theorem putChs_text (M : List Ch) (hw : ∀ c ∈ M, 0 ≤ c.width) (hb : BaseHead M) (hne : M ≠ []) (t : GridTerm) :
-    (t.putChs M).line = t.line ∧ (t.putChs M).col = t.col + chCols M ∧ (t.putChs M).pen = t.pen ∧
+/-- Printing characters that begin with a character of width > 0, at the cursor, with room for them on the line. -/
+theorem putChs_text (M : List Ch) (hw : ∀ c ∈ M, 0 ≤ c.width) (hb : BaseHead M) (hne : M ≠ []) (t : GridTerm)
+    (hfit : t.col + chCols M ≤ t.cols) :
+    (t.putChs M).line = t.line ∧ (t.putChs M).cols = t.cols ∧ (t.putChs M).col = t.col + chCols M ∧
+    (t.putChs M).pen = t.pen ∧
     (∀ l k, ¬ (l = t.line ∧ t.col ≤ k ∧ k < t.col + chCols M) → (t.putChs M).cells l k = t.cells l k) ∧
     (∀ k, t.col ≤ k → k < t.col + chCols M →
       ∃ x, colGlyph (graphemesAux M none) t.col k = some x ∧ ((t.putChs M).cells t.line k).glyph = x.1 ∧
@@ -770,25 +779,31 @@ theorem putChs_text (M : List Ch) (hw : ∀ c ∈ M, 0 ≤ c.width) (hb : BaseHe
   obtain ⟨b, M', rfl⟩ := List.exists_cons_of_ne_nil hne
   have hbw := hb b M' rfl
   have hw' : ∀ c ∈ M', 0 ≤ c.width := fun c h => hw c (by simp [h])
+  have hM' := chCols_nonneg M' hw'
+  simp only [chCols] at hfit
   rw [putChs_cons]
-  have hput : t.putCh b = t.putGlyph b.bytes b.width := by simp [GridTerm.putCh]; omega
+  have hput : t.putCh b = t.putGlyphRaw b.bytes b.width := by
+    simp only [GridTerm.putCh]
+    rw [if_neg (by omega)]
+    exact GridTerm.putGlyph_fit _ _ _ (by omega)
   rw [hput, graphemesAux_base_none b M' hbw]
-  obtain ⟨r1, r2, r3, r4, r5⟩ := putChs_gs M' hw' (t.putGlyph b.bytes b.width) t.line _ (curInv_putGlyph t b hbw)
-  have p2 : (t.putGlyph b.bytes b.width).col = t.col + b.width := rfl
-  have p3 : (t.putGlyph b.bytes b.width).pen = t.pen := rfl
-  have p5 : ∀ l k, (t.putGlyph b.bytes b.width).cells l k =
+  have p2 : (t.putGlyphRaw b.bytes b.width).col = t.col + b.width := rfl
+  have p3 : (t.putGlyphRaw b.bytes b.width).pen = t.pen := rfl
+  have p6 : (t.putGlyphRaw b.bytes b.width).cols = t.cols := rfl
+  have p5 : ∀ l k, (t.putGlyphRaw b.bytes b.width).cells l k =
       if l = t.line ∧ t.col ≤ k ∧ k < t.col + b.width then
         { glyph := if k = t.col then .chars b.bytes else .wcont, pen := t.pen, writes := (t.cells l k).writes + 1 }
       else t.cells l k := fun _ _ => rfl
+  obtain ⟨r1, r0, r2, r3, r4, r5⟩ := putChs_gs M' hw' (t.putGlyphRaw b.bytes b.width) t.line _
+    (curInv_putGlyph t b hbw) (by rw [p2, p6]; omega)
   simp only at r2 r4 r5
-  have hc1 : (t.putGlyph b.bytes b.width).col - b.width = t.col := by rw [p2]; omega
+  have hc1 : (t.putGlyphRaw b.bytes b.width).col - b.width = t.col := by rw [p2]; omega
   rw [hc1] at r2 r4 r5
   rw [p3] at r3 r5
   have hcols : gCols (graphemesAux M' (some ⟨b.bytes, b.width⟩)) = chCols (b :: M') := by
     rw [gCols_graphemesAux]; simp [gCols, chCols]
   rw [hcols] at r2
-  have hM' := chCols_nonneg M' hw'
-  refine ⟨r1, r2, r3, ?_, ?_⟩
+  refine ⟨r1, by rw [r0, p6], r2, r3, ?_, ?_⟩
   · intro l k hn
     rw [r4 l k (by rw [r2]; exact hn), p5, if_neg (by simp only [chCols] at hn; omega)]
   · intro k h1 h2
@@ -890,8 +905,9 @@ theorem split_colGlyph_at (cs : List Ch) (hw : ∀ c ∈ cs, 0 ≤ c.width) (k :
 
 /-- The print stage, whether or not there is anything to print. -/
 theorem print_opt (M : List Ch) (hw : ∀ c ∈ M, 0 ≤ c.width) (hb : BaseHead M) (t t' : GridTerm)
+    (hfit : t.col + chCols M ≤ t.cols)
     (h : (M = [] ∧ t' = t) ∨ (M ≠ [] ∧ t' = t.putChs M)) :
-    t'.line = t.line ∧ t'.col = t.col + chCols M ∧ t'.pen = t.pen ∧
+    t'.line = t.line ∧ t'.cols = t.cols ∧ t'.col = t.col + chCols M ∧ t'.pen = t.pen ∧
     (∀ l k, ¬ (l = t.line ∧ t.col ≤ k ∧ k < t.col + chCols M) → t'.cells l k = t.cells l k) ∧
     (∀ k, t.col ≤ k → k < t.col + chCols M →
       ∃ x, colGlyph (graphemesAux M none) t.col k = some x ∧ (t'.cells t.line k).glyph = x.1 ∧
@@ -902,11 +918,11 @@ theorem print_opt (M : List Ch) (hw : ∀ c ∈ M, 0 ≤ c.width) (hb : BaseHead
     subst hM; subst ht
     have hz : chCols [] = 0 := rfl
     rw [hz]
-    exact ⟨rfl, by omega, rfl, fun _ _ _ => rfl, fun k h1 h2 => by omega⟩
+    exact ⟨rfl, rfl, by omega, rfl, fun _ _ _ => rfl, fun k h1 h2 => by omega⟩
   | inr h =>
     obtain ⟨hM, ht⟩ := h
     subst ht
-    exact putChs_text M hw hb hM t
+    exact putChs_text M hw hb hM t hfit
 
 /-! ## The TEXT case -/
 
@@ -916,9 +932,10 @@ theorem graphemes_of_decode {s : List UInt8} {cs : List Ch} (h : decode s = some
 
 theorem text_run {rb : RB} {line col : Int} (hl : 0 ≤ line ∧ line < rb.lines) (h0 : 0 ≤ col)
     (hr : RunAt rb line col) (hs : (rb.cell line col).state = .text) : TextRunOK rb line col := by
-  intro t ht
+  intro t hcw ht
   obtain ⟨cs, hdec, hoffs, htot⟩ := hr.text hs
   have hn := hr.pos
+  have hrfit := hr.fits
   have hp := decodeFrom_props (rb.cell line col).text cs _ 0 hdec
   have hw012 : ∀ c ∈ cs, c.width = 0 ∨ c.width = 1 ∨ c.width = 2 := fun c hc => (hp c hc).2.2
   have hw0 := widths_nonneg_of_012 hw012
@@ -972,13 +989,63 @@ theorem text_run {rb : RB} {line col : Int} (hl : 0 ≤ line ∧ line < rb.lines
   have e2 : (t.run [.setpen (rb.cell line col).pen]).col = col := ht.2
   have e3 : (t.run [.setpen (rb.cell line col).pen]).cells = t.cells := rfl
   have e4 : (t.run [.setpen (rb.cell line col).pen]).pen = termSetpen t.pen (rb.cell line col).pen := rfl
+  have e6 : (t.run [.setpen (rb.cell line col).pen]).cols = t.cols := rfl
   have e5 : t.run [.setpen (rb.cell line col).pen] = t.setpen (rb.cell line col).pen := rfl
-  rw [e5] at e1 e2 e3 e4
+  rw [e5] at e1 e2 e3 e4 e6
   rw [e5]
-  generalize t.setpen (rb.cell line col).pen = t1 at e1 e2 e3 e4 hprint ⊢
-  obtain ⟨a1, a2, a3, a4, a5⟩ := erase_opt t1 (textLead (rb.cell line col)) hlead01
+  generalize t.setpen (rb.cell line col).pen = t1 at e1 e2 e3 e4 e6 hprint ⊢
+  have hsum0 : textLead (rb.cell line col) + chCols M + textTrail (rb.cell line col) = (rb.cell line col).cols := by
+    rw [hlead, htrail, hcke]; omega
+  have htr0 : 0 ≤ textTrail (rb.cell line col) := by omega
+  obtain ⟨a1, a0, a2, a3, a4, a5⟩ := erase_opt t1 (textLead (rb.cell line col)) hlead01 (by rw [e2, e6]; omega)
   generalize hA : t1.run (if textLead (rb.cell line col) > 0 then
-    [Req.erasech (textLead (rb.cell line col)) MaybeBool.yes] else []) = tA at a1 a2 a3 a4 a5 hprint ⊢
+    [Req.erasech (textLead (rb.cell line col)) MaybeBool.yes] else []) = tA at a1 a0 a2 a3 a4 a5 hprint ⊢
+  -- the one situation in which the cursor is clamped at the right edge: a one-column run at the terminal's last
+  -- column holding the right half of a double-width character
+  by_cases hedge : col + textLead (rb.cell line col) < t.cols ∨ textLead (rb.cell line col) = 0
+  case neg =>
+    have hl1 : textLead (rb.cell line col) = 1 := by omega
+    have hM0 : chCols M = 0 := by omega
+    have ht0 : textTrail (rb.cell line col) = 0 := by omega
+    have hn1 : (rb.cell line col).cols = 1 := by omega
+    have hMnil : M = [] := by
+      cases hMM : M with
+      | nil => rfl
+      | cons b rest =>
+        exfalso
+        have hb := hMb b rest hMM
+        have := chCols_nonneg rest (fun c hc => hMw c (by rw [hMM]; simp [hc]))
+        rw [hMM] at hM0
+        simp only [chCols] at hM0
+        omega
+    have hnb : ¬ ((textEnd (rb.cell line col)).bytes > (textStart (rb.cell line col)).bytes) :=
+      fun hgt => (hbytes.mp hgt) hMnil
+    rw [if_neg hnb, ht0]
+    simp only [Int.lt_irrefl, gt_iff_lt, if_false, GridTerm.run]
+    have hgr := graphemes_of_decode hdec
+    refine ⟨⟨?_, ?_, by rw [a1, e1], by rw [a0, e6]⟩, fun h => by omega⟩
+    · intro c hc1 hc2
+      have hcc : c = col := by omega
+      subst hcc
+      rw [want_of_run hl h0 hr c hc1 hc2]
+      unfold wantOf
+      simp only [hs, hgr, Option.bind_some]
+      have hhalf : ∃ gl, colGlyph (graphemesAux cs none) 0 (rb.cell line c).offs =
+          some (gl, (rb.cell line c).offs - 1, 2) := by
+        cases hsc with
+        | inl h => rw [hlead] at hl1; omega
+        | inr h => exact h.2
+      obtain ⟨gl, hgl⟩ := hhalf
+      rw [show (rb.cell line c).offs + (c - c) = (rb.cell line c).offs by omega, hgl]
+      simp only
+      rw [if_neg (by omega)]
+      have := a5 c (by rw [e2]; omega) (by rw [e2]; omega)
+      rw [e1] at this
+      rw [this, e3, e4]
+      exact cellOK_glyph _ _ _ _
+    · intro l c hout
+      rw [a4 l c (by rw [e1, e2]; omega), e3]
+  have a2' := a2 (by rw [e2, e6]; exact hedge)
   have hB : (M = [] ∧ tA.run (if (textEnd (rb.cell line col)).bytes > (textStart (rb.cell line col)).bytes then
         [Req.print (rb.cell line col).text (textStart (rb.cell line col)).bytes.toNat
           ((textEnd (rb.cell line col)).bytes - (textStart (rb.cell line col)).bytes).toNat] else []) = tA) ∨
@@ -994,23 +1061,24 @@ theorem text_run {rb : RB} {line col : Int} (hl : 0 ≤ line ∧ line < rb.lines
       refine ⟨hne, ?_⟩
       rw [if_pos (hbytes.mpr hne)]
       exact hprint hne
-  obtain ⟨b1, b2, b3, b4, b5⟩ := print_opt M hMw hMb tA _ hB
+  have hAcol : tA.col = col + textLead (rb.cell line col) := by rw [a2', e2]
+  obtain ⟨b1, b0, b2, b3, b4, b5⟩ := print_opt M hMw hMb tA _ (by rw [hAcol, a0, e6]; omega) hB
   generalize tA.run (if (textEnd (rb.cell line col)).bytes > (textStart (rb.cell line col)).bytes then
         [Req.print (rb.cell line col).text (textStart (rb.cell line col)).bytes.toNat
           ((textEnd (rb.cell line col)).bytes - (textStart (rb.cell line col)).bytes).toNat] else []) = tB
-    at b1 b2 b3 b4 b5 ⊢
-  obtain ⟨c1, c2, c3, c4, c5⟩ := erase_opt tB (textTrail (rb.cell line col)) htrail01
-  generalize tB.run (if textTrail (rb.cell line col) > 0 then
-    [Req.erasech (textTrail (rb.cell line col)) MaybeBool.yes] else []) = tC at c1 c2 c3 c4 c5 ⊢
+    at b1 b0 b2 b3 b4 b5 ⊢
   -- column arithmetic
-  have hAcol : tA.col = col + textLead (rb.cell line col) := by rw [a2, e2]
   have hBcol : tB.col = col + textLead (rb.cell line col) + chCols M := by rw [b2, hAcol]
-  have hsum : textLead (rb.cell line col) + chCols M + textTrail (rb.cell line col) = (rb.cell line col).cols := by
-    rw [hlead, htrail, hcke]; omega
+  have hsum := hsum0
+  obtain ⟨c1, c0, c2, c3, c4, c5⟩ := erase_opt tB (textTrail (rb.cell line col)) htrail01
+    (by rw [hBcol, b0, a0, e6]; omega)
+  generalize tB.run (if textTrail (rb.cell line col) > 0 then
+    [Req.erasech (textTrail (rb.cell line col)) MaybeBool.yes] else []) = tC at c1 c0 c2 c3 c4 c5 ⊢
   have hAline : tA.line = line := by rw [a1, e1]
   have hBline : tB.line = line := by rw [b1, hAline]
   have hgr := graphemes_of_decode hdec
-  refine ⟨⟨?_, ?_, by rw [c1, hBline]⟩, by rw [c2, hBcol]; omega⟩
+  refine ⟨⟨?_, ?_, by rw [c1, hBline], by rw [c0, b0, a0, e6]⟩,
+    fun hlt => by rw [c2 (Or.inl (by rw [hBcol, b0, a0, e6]; omega)), hBcol]; omega⟩
   · -- inside the run
     intro c hc1 hc2
     rw [want_of_run hl h0 hr c hc1 hc2]
@@ -1102,18 +1170,27 @@ theorem addZeroWidth_col (t : GridTerm) (bs : List UInt8) : (t.addZeroWidth bs).
   unfold GridTerm.addZeroWidth
   cases t.last <;> rfl
 
-theorem putChs_col (cs : List Ch) : ∀ t : GridTerm, (t.putChs cs).col = t.col + chCols cs := by
+theorem putChs_col (cs : List Ch) (hw : ∀ c ∈ cs, 0 ≤ c.width) : ∀ t : GridTerm, t.col + chCols cs ≤ t.cols →
+    (t.putChs cs).col = t.col + chCols cs := by
   induction cs with
-  | nil => intro t; simp [GridTerm.putChs, chCols]
+  | nil => intro t _; simp [GridTerm.putChs, chCols]
   | cons c cs ih =>
-    intro t
-    rw [putChs_cons, ih]
+    intro t hfit
+    have hc0 := hw c (by simp)
+    have hw' : ∀ c' ∈ cs, 0 ≤ c'.width := fun c' h => hw c' (by simp [h])
+    have hn := chCols_nonneg cs hw'
+    simp only [chCols] at hfit
+    rw [putChs_cons]
     simp only [chCols, GridTerm.putCh]
     by_cases hc : c.width = 0
-    · rw [if_pos hc, addZeroWidth_col]; omega
-    · rw [if_neg hc]
-      have : (t.putGlyph c.bytes c.width).col = t.col + c.width := rfl
-      rw [this]; omega
+    · rw [if_pos hc]
+      have hcols : (t.addZeroWidth c.bytes).cols = t.cols := by
+        unfold GridTerm.addZeroWidth; cases t.last <;> rfl
+      rw [ih hw' _ (by rw [addZeroWidth_col, hcols]; omega), addZeroWidth_col]; omega
+    · rw [if_neg hc, GridTerm.putGlyph_fit _ _ _ (by omega)]
+      have h1 : (t.putGlyphRaw c.bytes c.width).col = t.col + c.width := rfl
+      have h2 : (t.putGlyphRaw c.bytes c.width).cols = t.cols := rfl
+      rw [ih hw' _ (by rw [h1, h2]; omega), h1]; omega
 
 /-- Without any limit the counter consumes everything. -/
 theorem prefixLen_nolimit : ∀ (cs : List Ch) (p : StrPos), prefixLen ⟨-1, -1, -1, -1⟩ p cs = cs.length := by
